@@ -1,7 +1,8 @@
 (* Extraction of the overwrite-ring / blackbox model for C11.  ExtrOcamlBasic only: bool/option/unit/list/prod/sumbool
    map to the OCaml types of the same shape; Z, positive, nat stay inductive; no Extract Constant. *)
 From Coq Require Import ExtrOcamlBasic.
-Require Import Verif.RbModel Verif.RbSpec Verif.RbOwSpec Verif.BbModel Verif.RbOwDumpModel.
+Require Import Verif.RbModel Verif.RbSpec Verif.RbOwSpec Verif.BbModel Verif.RbOwDumpModel Verif.RbOwSplitModel Verif.RbOwWaitModel.
 Extraction "model_C11.ml" rb_open step run readback drain rfits bb_open bb_step bb_run bb_decode bb_encode
   bb_fallback_limit bb_fallback_limit_unfixed
-  rb_of_file bb_default_maxline bb_dump_file_size bb_timespec_size readback_words rb_from_dump.
+  rb_of_file bb_default_maxline bb_dump_file_size bb_timespec_size readback_words rb_from_dump
+  xstep xrun read_wait peek_wait.
